@@ -578,14 +578,19 @@ def c16(prop, tier):
                 {"PKGNAME": "sw_bls12377", "FRPKG": fr_pkg("bw6-761")}, timeout_ms=120000),
             Job("sw-bls24315", "./std/algebra/native/sw_bls24315", ["prelude_sym.go", "prelude_fr_sym.go", "api_field_standin.go", "c16_sw.go"],
                 {"PKGNAME": "sw_bls24315", "FRPKG": fr_pkg("bw6-633")}, timeout_ms=120000)]
-    return run_property(prop, tier, jobs,
-                        title="C16 (affine group laws of the native-field gadgets only): twisted Edwards add / double / neg / assertIsOnCurve against the textbook formulas of the group law, and the two-chain short-Weierstrass G1 AddAssign / Double / Neg against the chord-and-tangent formulas, as identities over ALL field values of the coordinates (and of the curve parameters a, d) in the algebra model, under each formula's domain (non-zero denominators; distinct x for the chord; y != 0 for the tangent). The gadgets run against a field-valued frontend.API stand-in.",
+    em = [("BN254Fp", "BN254Fr")] if tier == "quick" else [("BN254Fp", "BN254Fr"), ("Secp256k1Fp", "Secp256k1Fr"), ("BLS12381Fp", "BLS12381Fr")]
+    for base, scal in em:
+        jobs.append(Job("sw-emulated-addunified-" + base, "./std/algebra/emulated/sw_emulated", ["prelude_sym.go", "prelude_fr_sym.go", "api_field_standin.go", "c16_sw_emulated.go"],
+                        {"PKGNAME": "sw_emulated", "FRPKG": fr_pkg("bn254"), "EMBASE": base, "EMSCALAR": scal}, model="gfp:13", timeout_ms=120000))
+    return run_property(prop, tier, jobs, finding_matcher=essa_matcher,
+                        title="C16 (affine group laws of the native-field gadgets only): twisted Edwards add / double / neg / assertIsOnCurve against the textbook formulas of the group law, and the two-chain short-Weierstrass G1 AddAssign / Double / Neg against the chord-and-tangent formulas, as identities over ALL field values of the coordinates (and of the curve parameters a, d) in the algebra model, under each formula's domain (non-zero denominators; distinct x for the chord; y != 0 for the tangent). The gadgets run against a field-valued frontend.API stand-in. Emulated short-Weierstrass complete addition: the real sw_emulated.Curve.AddUnified with the emulated.Field methods it calls replaced by their specification over the stand-in base field GF(13) (13 = 1 mod 3: a j = 0 curve has its order-3 automorphism there), curve y^2 = x^3 + b with symbolic b: for ALL pairs of points in the documented domain (on the curve or (0,0); no points of order two) the result is the group law's, case by case.",
                         design_ref="DESIGN.md §3 C16",
-                        assumptions=["denominators non-zero (for twisted Edwards: true for points of a curve with a square and d non-square, where the law is complete)", "identities over Q hold in every field"],
+                        assumptions=["denominators non-zero (for twisted Edwards: true for points of a curve with a square and d non-square, where the law is complete)", "identities over Q hold in every field",
+                                     "AddUnified harness: emulated.Field operations are their specification over the base field (their own correctness is C12's subject); stand-in base field GF(13); curves without points of order two"],
                         outside=["scalar multiplication, multi-scalar multiplication, GLV / fake-GLV, DoubleAndAdd and the complete AddUnified (tried: the solver does not decide those identities within minutes)",
                                  "emulated short-Weierstrass arithmetic, pairings, ECDSA / EdDSA / EVM precompile gadgets (emulated or 2-chain extension-field arithmetic over 254-761 bit fields)",
                                  "constraint-level soundness (the stand-in evaluates the gadget's formulas)"],
-                        expect_reach={"verifHarness_twistedEdwardsGroupLaw": ["group-law"], "verifHarness_swChordTangent": ["chord-tangent"]})
+                        expect_reach={"verifHarness_twistedEdwardsGroupLaw": ["group-law"], "verifHarness_swChordTangent": ["chord-tangent"], "verifHarness_swEmulatedAddUnified": ["add-unified"]})
 
 
 def c18(prop, tier):
